@@ -241,7 +241,9 @@ def rule_effect(ctx):
             given = 1
             for q in ps[1:]:
                 # q is known to be given where the statement sits in the else-branch of `if q is None`
-                if any(isinstance(p_, ast.If) and norm(p_.test) == f'{q} is None' and U.in_body(d, p_, 'orelse') for p_ in U.parent_chain(d)):
+                if any(isinstance(p_, ast.If) and ((norm(p_.test) == f'{q} is None' and U.in_body(d, p_, 'orelse')) or
+                                                  (norm(p_.test) == f'{q} is not None' and U.in_body(d, p_, 'body')))
+                       for p_ in U.parent_chain(d)):
                     given += 1
                 else:
                     break
@@ -257,7 +259,8 @@ def rule_effect(ctx):
            'enable adds the responder once', en.node, rf.module)
     ctx.ob('C18.effect', f'{dis.fq}', 'if self.enabled:' in full(dis.node) and 'self.dispatcher.remove(self)' in full(dis.node) and 'self.enabled = False' in full(dis.node),
            'disable removes the responder', dis.node, rf.module)
-    ctx.ob('C18.effect', f'{fr.fq}', 'if self.enabled: self.disable()' in full(fr.node), 'free disables the responder', fr.node, rf.module)
+    ctx.ob('C18.effect', f'{fr.fq}', 'if self.enabled: self.disable()' in full(fr.node) or any(norm(x) == 'self.disable()' for x in fr.node.body),
+           'free disables the responder (disable() tests `enabled` itself, so an unconditional call is the same)', fr.node, rf.module)
     # ... whatever the bookkeeping set says: the only condition on the way to disable() is the responder being enabled (a responder
     # revived with enable() after a free is not in _all_func_proxies unless enable() put it back)
     dcalls = [c for c in U.calls(fr.node) if U.is_self_attr(c.func, 'disable')]
@@ -627,3 +630,12 @@ MUTANTS = [
 ]
 
 REPAIRS = []
+
+
+EQUIV = [
+    dict(name='free calls disable() without repeating its enabled test', file='sc3/base/responders.py',
+         old="        if self.enabled:\n            self.disable()\n\n    # def clear(self):", new="        self.disable()\n\n    # def clear(self):"),
+    dict(name='unregister spelled with nested if/else and the positive tests', file='sc3/base/model.py',
+         old="            if msg is None:\n                del cls._registrations[obj]\n            elif listener is None:\n                del cls._registrations[obj][msg]\n            else:\n                del cls._registrations[obj][msg][listener]\n",
+         new="            if msg is not None:\n                if listener is not None:\n                    del cls._registrations[obj][msg][listener]\n                else:\n                    del cls._registrations[obj][msg]\n            else:\n                del cls._registrations[obj]\n"),
+]
